@@ -77,8 +77,8 @@ func dumpGen(c *runCtx, run func([]string)) {
 		if n > 0 && c.rng.IntN(3) == 0 {
 			corrupt = c.rng.IntN(n)
 		}
-		run([]string{fmt.Sprintf("dump restore sizes=%s wc=%d chunks=%s corrupt=%d ignore=%d", joinInts(sizes), c.rng.IntN(2),
-			compressChunks(chunks), corrupt, c.rng.IntN(2))})
+		run([]string{fmt.Sprintf("dump restore sizes=%s wc=%d chunks=%s corrupt=%d ignore=%d ck=%d", joinInts(sizes), c.rng.IntN(2),
+			compressChunks(chunks), corrupt, c.rng.IntN(2), c.rng.IntN(4))})
 	}
 }
 
@@ -165,9 +165,11 @@ func dumpExec(c *runCtx, ops []string) {
 		}
 		corrupt := o.int("corrupt")
 		if corrupt >= 0 && corrupt < len(offs) {
-			// an invalid protobuf tag at the start of the record body
-			raw[offs[corrupt]] = 0xFF
-			raw[offs[corrupt]+1] = 0xFF
+			rec := raw[offs[corrupt] : offs[corrupt]+lens[corrupt]]
+			if !dumpCorrupt(rec, o.int("ck")) {
+				// an invalid protobuf tag at the start of the record body
+				rec[0], rec[1] = 0xFF, 0xFF
+			}
 		}
 		full := fmt.Sprintf("%s ids=%s lens=%s", line, joinInts(ids), joinInts(lens))
 		dst := newShard(filepath.Join(dir, "dst"), shardCfg{})
@@ -208,4 +210,35 @@ func dumpExec(c *runCtx, ops []string) {
 			c.nontrivial(line)
 		}
 	}
+}
+
+// dumpCorrupt damages one record of a dump in place, keeping its length: kind 1 declares one payload byte more than
+// the record holds (length prefix of the payload field, the last field), kind 2 does the same to the header field
+// (which then swallows the payload's tag and ends inside a field). Both make a full decode of the record fail for
+// certain while ID, signature and header bytes stay in place. Returns false when the record has no such field
+// (the caller falls back to an invalid tag at the start).
+func dumpCorrupt(rec []byte, kind int) bool {
+	field := map[int]int{1: 4, 2: 3}[kind]
+	if field == 0 {
+		return false
+	}
+	for p := 0; p < len(rec); {
+		tag, n := binary.Uvarint(rec[p:])
+		if n <= 0 || tag&7 != 2 {
+			return false
+		}
+		l, m := binary.Uvarint(rec[p+n:])
+		if m <= 0 {
+			return false
+		}
+		if int(tag>>3) == field {
+			if rec[p+n]&0x7F == 0x7F { // +1 would carry into the next varint byte
+				return false
+			}
+			rec[p+n]++
+			return true
+		}
+		p += n + m + int(l)
+	}
+	return false
 }
